@@ -261,7 +261,7 @@ class C12(Check):
                     outs = []
                     for api, opts in API_VARIANTS:
                         try:
-                            got = call_api(t, api, opts, flt, None)
+                            got = call_api(t, api, opts, mk(col), None)     # a fresh filter object per call
                             outs.append((api, opts, "returned", len(got)))
                         except Exception as e:  # noqa
                             outs.append((api, opts, "raise", type(e).__name__))
@@ -271,7 +271,7 @@ class C12(Check):
                     res.key(["m", name, state, col])
                     if bad:
                         apis = sorted({o[0] for o in bad})
-                        res.violation(f"malformed-accepted:{state}:{'+'.join(apis)}",
+                        res.violation(f"malformed-accepted:{name}:{state}:{'+'.join(apis)}",
                                       f"malformed filter {flt!r} on {state} table did not raise in {apis}",
                                       {"filter": repr(flt), "state": state, "outcomes": outs})
                     elif len(res.samples) < 3:
